@@ -11,7 +11,7 @@ from vt import tt
 from vt.cmp import arr, maxabs
 from vt.gen.basic import fl, logu
 from vt.oracle import leapfrog as lf
-from vt.runner import Res, Sub
+from vt.runner import Res, Sub, guarded
 
 PROPERTY = "C16"
 LEVEL = "exploration"
@@ -33,13 +33,13 @@ ASSUMPTIONS = [
     "reference = textbook leapfrog in numpy; gradients of Normal / gamma(exp) / MVN targets are closed forms; for "
     "the phylogenetic posterior the gradient is autograd on a second, separately built instance of the same "
     "specification (the density itself is the subject of C01/C12, not of C16)",
-    "guard (all sub-checks): the reference trajectory is finite and the round-off probe (reference re-run with a "
+    "guard (all sub-checks): the reference trajectory is finite, its scale S stays below 1e4, and the round-off probe (reference re-run with a "
     "relative perturbation 1e-9 injected at every gradient and position update) is amplified by less than 1e3; "
     "cases beyond that (unstable step size for the target's curvature) are counted but nothing is asserted, "
     "because the property holds there only 'up to round-off' that is amplified without bound",
     "tolerances are relative to the trajectory scale S = max(1, |q|, |p|, eps*|grad|) along the reference: "
     "differential 1e-10*S, reversal 1e-9*L*S, determinant 1e-6 when the Richardson error bound of the central-"
-    "difference Jacobian (steps 1e-3 and 5e-4 times max(1,|z_i|)) propagated through the inverse is < 1e-7",
+    "difference Jacobian (steps 2.5e-4 and 1.25e-4 times max(1,|z_i|)) propagated through the inverse is < 1e-7",
     "energy: err(eps)/err(eps/2) (fixed integration time: L and 2L steps; also eps/2 vs eps/4) is asserted to lie "
     "in [3,5] only when the reference leapfrog's own signed ratio lies in [3.6,4.4], |reference err(finer)| >= 1e-9 * "
     "max(1,|H0|) (>= 1e4 x round-off of H) and all three reference runs pass the guard; since the implementation "
@@ -51,6 +51,8 @@ ASSUMPTIONS = [
 ]
 
 AMP_MAX = 1e3
+SCALE_MAX = 1e4
+FD_H = 2.5e-4
 TOPOLOGIES = ["((A:0.1,B:0.1):0.1,C:0.1,D:0.1);", "((A:0.1,C:0.1):0.1,B:0.1,D:0.1);", "((A:0.1,D:0.1):0.1,B:0.1,C:0.1);"]
 TAXA = ["A", "B", "C", "D"]
 PHYLO_MODELS = {"JC69": [5], "HKY_kappa": [5, 1], "HKY_freqs": [5, 3]}
@@ -71,7 +73,8 @@ def _logu_grid(lo, hi):
     """log-uniform on a grid of 4096 points, drawn as two small choices (floats are biased to their end
     points and wide integer ranges to small values, small ranges are drawn evenly)"""
     a, b = math.log(lo), math.log(hi)
-    return st.tuples(st.sampled_from(_spread(range(64))), st.sampled_from(range(64))).map(
+    coarse = [i ^ 32 for i in _spread(range(64))]  # first (= simplest) entry in the middle of the range
+    return st.tuples(st.sampled_from(coarse), st.sampled_from(range(64))).map(
         lambda t: min(hi, max(lo, math.exp(a + (b - a) * (64 * t[0] + t[1]) / 4095.0)))
     )
 
@@ -104,7 +107,7 @@ def _block(draw, kind, n):
 
 
 @st.composite
-def cases(draw, targets=("block", "block", "mvn", "phylo"), max_L=30, phylo_max_L=30, eps_lo=1e-3, masses=("identity", "identity_dense", "diag", "diag", "dense", "dense"), operator=False):
+def cases(draw, targets=("block", "block", "mvn", "phylo"), max_L=30, phylo_max_L=30, eps_lo=1e-3, masses=("identity", "identity_dense", "diag", "diag", "dense", "dense"), operator=False, harsh=False):
     target = draw(st.sampled_from(list(targets)))
     c = {"target": target}
     # the knobs first, the bulk of the numbers afterwards (late draws of a long example are the
@@ -125,8 +128,8 @@ def cases(draw, targets=("block", "block", "mvn", "phylo"), max_L=30, phylo_max_
         elif model == "HKY_freqs":
             q0 += [draw(fl(0.1, 1.0)) for _ in range(3)]
     else:
-        d = draw(st.integers(1, 8))
-        npar = draw(st.integers(1, min(3, d)))
+        d = draw(st.sampled_from(_spread(range(1, 9))))
+        npar = draw(st.sampled_from([k for k in (1, 3, 2) if k <= d]))
         cuts = sorted(draw(st.lists(st.integers(1, d - 1), min_size=npar - 1, max_size=npar - 1, unique=True))) if npar > 1 else []
         edges = [0] + cuts + [d]
         sizes = [edges[i + 1] - edges[i] for i in range(npar)]
@@ -136,9 +139,10 @@ def cases(draw, targets=("block", "block", "mvn", "phylo"), max_L=30, phylo_max_
         else:
             blocks, q0 = [], []
             for n in sizes:
-                kind = draw(st.sampled_from(["normal", "gamma", "gamma", "mvn"]))
+                kind = "gamma" if harsh else draw(st.sampled_from(["normal", "gamma", "gamma", "mvn"]))
                 blocks.append(_block(draw, kind, n))
-                q0 += [draw(fl(-2.0, 2.0) if kind == "gamma" else fl(-3.0, 3.0)) for _ in range(n)]
+                # harsh: start far in the tail of exp(x), where large steps overflow (numerical failure path)
+                q0 += [draw(fl(2.0, 7.0) if harsh else (fl(-2.0, 2.0) if kind == "gamma" else fl(-3.0, 3.0))) for _ in range(n)]
             c["blocks"] = blocks
     d = sum(sizes)
     c["sizes"] = sizes
@@ -149,6 +153,7 @@ def cases(draw, targets=("block", "block", "mvn", "phylo"), max_L=30, phylo_max_
     if operator:
         c["torch_seed"] = draw(st.integers(0, 2**31 - 1))
         c["decisions"] = draw(st.lists(st.sampled_from(["accept", "reject"]), min_size=1, max_size=2))
+        c["mass_route"] = draw(st.sampled_from(["spec", "spec", "assigned"]))
     else:
         c["p0"] = [draw(fl(-3.0, 3.0)) for _ in range(d)]
     return c
@@ -345,6 +350,8 @@ def _reference(c, orc, q0, p0, eps, L, minv):
         return ref, float("inf"), "guard:unstable"
     if not orc.margin(ref["traj"]) >= 1e-2:
         return ref, float("inf"), "guard:degenerate_eigenvalues"
+    if not ref["scale"] <= SCALE_MAX:
+        return ref, float("inf"), "guard:unstable"
     amp = lf.amplification(q0, p0, eps, L, minv, orc.grad, base=ref)
     if not amp <= AMP_MAX:
         return ref, amp, "guard:unstable"
@@ -378,7 +385,7 @@ def body_trajectory(c, which):
     q1, p1 = run_impl(b, integ, q0, p0, minv_t)
     if q1 is None:
         return res.fail("shape", {"shapes": [list(p.tensor.shape) for p in b.params], "sizes": c["sizes"]})
-    moved = float(np.max(np.abs(ref["q"] - q0))) > 1e-6
+    moved = float(np.max(np.abs(ref["q"] - q0))) > 1e-6 and S <= 1e3
     if which == "differential":
         err = max(maxabs(q1, ref["q"]), maxabs(p1, ref["p"]))
         res.nontrivial = moved
@@ -407,6 +414,10 @@ def body_reversal(c):
 
 
 # ----------------------------------------------------------------------------- (c)
+class _FDAbort(Exception):
+    pass
+
+
 def body_volume(c):
     res = _base(c, "volume")
     orc = Oracle(c)
@@ -421,12 +432,22 @@ def body_volume(c):
     if why:
         _lab(res, why)
         return res
+    if not amp * ref["scale"] * FD_H * max(1.0, float(np.max(np.abs(q0))), float(np.max(np.abs(p0)))) <= 0.1:
+        # a finite-difference displacement must stay a small perturbation of the whole trajectory
+        _lab(res, "guard:fd_inaccurate")
+        return res
     b = Built(c)
     integ = build_integrator(eps, L)
     z0 = np.concatenate([q0, p0])
+    base = run_impl(b, integ, q0, p0, minv_t)  # at the case's own point a raise is a failure
+    if base[0] is None:
+        return res.fail("shape", {"sizes": c["sizes"]})
 
     def F(z):
-        q1, p1 = run_impl(b, integ, z[:d], z[d:], minv_t)
+        (out, exc) = guarded(run_impl, b, integ, z[:d], z[d:], minv_t)
+        if exc is not None:
+            raise _FDAbort()
+        q1, p1 = out
         if q1 is None:
             return None
         return np.concatenate([q1, p1])
@@ -443,8 +464,12 @@ def body_volume(c):
             J[:, i] = (a - bb) / (2 * h)
         return J
 
-    J1 = jac(1e-3)
-    J2 = jac(5e-4)
+    try:
+        J1 = jac(FD_H)
+        J2 = jac(FD_H / 2)
+    except _FDAbort:
+        _lab(res, "guard:fd_inaccurate")
+        return res
     if J1 is None or J2 is None:
         return res.fail("shape", {"sizes": c["sizes"]})
     if not (np.all(np.isfinite(J1)) and np.all(np.isfinite(J2))):
@@ -480,7 +505,6 @@ def body_energy(c):
     M = mass_np(c)
     minv = lf.invert_mass(M)
     minv_t = tt.T(minv.tolist())
-    M_t = tt.T(M.tolist())
     q0 = np.asarray(c["q0"], dtype=float)
     p0 = np.asarray(c["p0"], dtype=float)
     eps, L = c["eps"], c["L"]
@@ -502,26 +526,23 @@ def body_energy(c):
     ham = build_hamiltonian(b)
     Hscale = max(1.0, abs(H0r))
 
-    def H_impl(q, p, use_mass):
-        # energy as the library reports it for the state held by the parameters
+    def H_impl(q, p):
+        # energy of the state held by the parameters, from the two methods HMCOperator._step uses
         pt = torch.tensor(np.asarray(p, dtype=float).tolist())
         with torch.no_grad():
-            if use_mass:
-                return float(ham(momentum=pt, mass_matrix=M_t))
-            return float(ham(momentum=pt, inverse_mass_matrix=minv_t))
+            return float(ham.potential_energy()) + float(ham.kinetic_energy(pt, minv_t))
 
     b.set_q(q0)
-    H0 = H_impl(q0, p0, False)
-    H0m = H_impl(q0, p0, True)
-    if not abs(H0 - H0r) <= 1e-10 * Hscale or not abs(H0m - H0r) <= 1e-9 * Hscale:
-        return res.fail("hamiltonian", {"H": H0, "H_mass_matrix": H0m, "H_ref": H0r})
+    H0 = H_impl(q0, p0)
+    if not abs(H0 - H0r) <= 1e-10 * Hscale:
+        return res.fail("hamiltonian", {"H": H0, "H_ref": H0r})
     eimp = []
     for (e_, L_), r in zip(levels, refs):
         integ = build_integrator(e_, L_)
         q1, p1 = run_impl(b, integ, q0, p0, minv_t)
         if q1 is None:
             return res.fail("shape", {"sizes": c["sizes"]})
-        H1 = H_impl(q1, p1, False)
+        H1 = H_impl(q1, p1)
         H1r = -orc.logp(q1) + lf.kinetic(p1, minv)
         if not abs(H1 - H1r) <= 1e-10 * max(Hscale, abs(H1r)):
             return res.fail("hamiltonian", {"H": H1, "H_ref": H1r, "eps": e_, "L": L_})
@@ -579,6 +600,18 @@ def recording(rec):
         LeapfrogIntegrator.__call__ = o_call
 
 
+def _attempts(rec):
+    """[(p0, p1 or None), ...]: one entry per momentum draw, with the momentum the integrator returned
+    for it when the integration got that far"""
+    out = []
+    for k, x in rec:
+        if k == "p0":
+            out.append([arr(x), None])
+        elif out:
+            out[-1][1] = arr(x)
+    return out
+
+
 def body_operator(c):
     res = _base(c, "operator")
     orc = Oracle(c)
@@ -588,10 +621,19 @@ def body_operator(c):
     d = sum(c["sizes"])
     b = Built(c)
     build_integrator(eps, L, b.dic, "lf")
+    route = c.get("mass_route", "spec")
+    if route == "spec":
+        mass = tt.P("op.mass", c["mass"]["M"])
+    else:
+        # what the CLI writes; the case's matrix is assigned afterwards, the way MassMatrixAdaptor does
+        mass = {"id": "op.mass", "type": "Parameter", ("ones" if M.ndim == 1 else "eye"): d}
     op, _ = tt.build(
-        {"id": "op", "type": "HMCOperator", "joint": "joint", "parameters": list(b.ids), "integrator": "lf", "mass_matrix": tt.P("op.mass", c["mass"]["M"]), "weight": 1.0},
+        {"id": "op", "type": "HMCOperator", "joint": "joint", "parameters": list(b.ids) if len(b.ids) > 1 else b.ids[0], "integrator": "lf", "mass_matrix": mass, "weight": 1.0},
         b.dic,
     )
+    if route != "spec":
+        b.dic["op.mass"].tensor = tt.T(M.tolist())
+    _lab(res, "mass_route=" + route)
     torch.manual_seed(c["torch_seed"])
     q_cur = np.asarray(c["q0"], dtype=float)
     lp_cur = orc.logp(q_cur)
@@ -605,30 +647,47 @@ def body_operator(c):
         with recording(rec):
             h = op.step()
         nsteps += 1
-        p0s = [x for k, x in rec if k == "p0"]
-        p1s = [x for k, x in rec if k == "p1"]
-        if not p0s:
+        att = _attempts(rec)
+        if not att:
             raise RuntimeError("harness: no momentum draw recorded (HMCOperator no longer calls Hamiltonian.sample_momentum?)")
-        p0 = arr(p0s[-1])
-        if p0.shape != (d,) or not np.all(np.isfinite(p0)):
-            return res.fail("momentum_shape", {"shape": list(p0.shape), "dim": d})
+        for p0, _ in att:
+            if p0.shape != (d,) or not np.all(np.isfinite(p0)):
+                return res.fail("momentum_shape", {"shape": list(p0.shape), "dim": d})
+        hv = float(h)
+        # abandoned attempts (numerical failure, new momentum drawn): legitimate only where the exact
+        # trajectory for that momentum is itself outside the guarded region
+        for p0, _ in att[:-1]:
+            _, _, why = _reference(c, orc, q_cur, p0, eps, L, minv)
+            if why is None:
+                return res.fail("retries", {"draws": len(att), "abandoned_momentum": p0.tolist()})
+        if len(att) > 1:
+            _lab(res, "retried")
+        p0, p1 = att[-1]
         ref, amp, why = _reference(c, orc, q_cur, p0, eps, L, minv)
+        if p1 is None or not math.isfinite(hv):
+            # every attempt failed: the position must be exactly the one before the step
+            if why is None:
+                return res.fail("retries", {"draws": len(att), "returned": hv, "abandoned_momentum": p0.tolist()})
+            qb = b.get_q()
+            if qb is None or not np.array_equal(qb, q_cur):
+                return res.fail("restore_after_failure", {"q": None if qb is None else qb.tolist(), "expected": q_cur.tolist()})
+            if any(p.requires_grad for p in b.params):
+                return res.fail("requires_grad", {"flags": [bool(p.requires_grad) for p in b.params]})
+            _lab(res, "all_attempts_failed")
+            res.nontrivial = True
+            return res
         if why:
             # outside the guarded region nothing is asserted about the numbers
             _lab(res, why)
             return res
-        if len(p0s) != 1 or len(p1s) != 1:
-            return res.fail("retries", {"draws": len(p0s), "integrations": len(p1s)})
-        p1 = arr(p1s[-1])
         S = ref["scale"]
         q1 = b.get_q()
         if q1 is None:
             return res.fail("shape", {"shapes": [list(p.tensor.shape) for p in b.params], "sizes": c["sizes"]})
         err = max(maxabs(q1, ref["q"]), maxabs(p1, ref["p"]))
-        if not err <= 1e-10 * S * max(1.0, float(np.max(np.abs(minv)))):
-            return res.fail("proposal", {"err": err, "scale": S, "amp": amp, "q": q1.tolist(), "q_ref": ref["q"].tolist(), "p": p1.tolist(), "p_ref": ref["p"].tolist()})
+        if not err <= 1e-10 * S:
+            return res.fail("proposal", {"err": err, "scale": S, "amp": amp, "q": q1.tolist(), "q_ref": ref["q"].tolist(), "p": p1.tolist(), "p_ref": ref["p"].tolist(), "draws": len(att)})
         K0, K1 = lf.kinetic(p0, minv), lf.kinetic(p1, minv)
-        hv = float(h)
         Ks = max(1.0, K0, K1)
         if not abs(hv - (K0 - K1)) <= 1e-10 * Ks:
             return res.fail("hastings", {"returned": hv, "K0-K1": K0 - K1, "K0": K0, "K1": K1})
@@ -642,7 +701,7 @@ def body_operator(c):
         dH = (-lp1r + K1) - (-lp_cur + K0)
         if not abs((lp1 - lp0 + hv) + dH) <= 1e-9 * max(1.0, abs(lp_cur), abs(lp1r), Ks):
             return res.fail("acceptance", {"log_ratio": lp1 - lp0 + hv, "minus_dH": -dH})
-        if float(np.max(np.abs(q1 - q_cur))) > 1e-6:
+        if float(np.max(np.abs(q1 - q_cur))) > 1e-6 and S <= 1e3:
             res.nontrivial = True
         if decision == "accept":
             op.accept()
@@ -653,6 +712,69 @@ def body_operator(c):
             if qb is None or not np.array_equal(qb, q_cur):
                 return res.fail("restore", {"q": None if qb is None else qb.tolist(), "expected": q_cur.tolist()})
     _lab(res, "history=" + ",".join(c["decisions"]))
+    return res
+
+
+# ----------------------------------------------------------------------------- (f) the value of the Hamiltonian model
+@st.composite
+def ham_cases(draw):
+    c = draw(cases(targets=("block", "block", "mvn", "phylo"), max_L=1, phylo_max_L=1))
+    d = sum(c["sizes"])
+    queries = []
+    for i in range(draw(st.sampled_from([2, 3, 4]))):
+        q = {"move": True if i == 0 else draw(st.booleans()), "kw": draw(st.sampled_from(["inverse_mass_matrix", "mass_matrix"]))}
+        q["p"] = [draw(fl(-3.0, 3.0)) for _ in range(d)]
+        q["dq"] = [draw(fl(0.05, 0.5)) for _ in range(d)] if q["move"] else None
+        queries.append(q)
+    c["queries"] = queries
+    return c
+
+
+def ham_pretags(c):
+    t = pretags(c)
+    t["query"] = "same_position" if any(not q["move"] for q in c["queries"]) else "new_position"
+    return t
+
+
+def body_hamiltonian(c):
+    """Hamiltonian(...)(momentum=p, [inverse_]mass_matrix=...) = -log density(q) + p' M^-1 p / 2 for the
+    position held by the parameters and the momentum passed, whatever was asked before"""
+    res = _base(c, "hamiltonian")
+    res.tags = ham_pretags(c)
+    orc = Oracle(c)
+    M = mass_np(c)
+    minv = lf.invert_mass(M)
+    b = Built(c)
+    ham = build_hamiltonian(b)
+    q = np.asarray(c["q0"], dtype=float)
+    pos, qq = [], q
+    for x in c["queries"]:
+        if x["move"]:
+            qq = qq + np.asarray(x["dq"], dtype=float)
+        pos.append((qq, None))
+    if not orc.margin(pos) >= 1e-2:
+        _lab(res, "guard:degenerate_eigenvalues")
+        return res
+    for i, x in enumerate(c["queries"]):
+        if x["move"]:
+            q = q + np.asarray(x["dq"], dtype=float)
+            b.set_q(q)
+        p = np.asarray(x["p"], dtype=float)
+        kw = {"momentum": torch.tensor(p.tolist())}
+        if x["kw"] == "mass_matrix":
+            kw["mass_matrix"] = tt.T(M.tolist())
+        else:
+            kw["inverse_mass_matrix"] = tt.T(minv.tolist())
+        with torch.no_grad():
+            H = float(ham(**kw))
+        Hr = -orc.logp(q) + lf.kinetic(p, minv)
+        if not math.isfinite(Hr):
+            _lab(res, "guard:unstable")
+            return res
+        if not abs(H - Hr) <= 1e-9 * max(1.0, abs(Hr), lf.kinetic(p, minv)):
+            return res.fail("hamiltonian_value", {"query": i, "H": H, "expected": Hr, "moved": x["move"], "kw": x["kw"]}, query="new_position" if x["move"] else "same_position")
+    res.nontrivial = True
+    _lab(res, "query=" + res.tags["query"])
     return res
 
 
